@@ -130,6 +130,7 @@ func (in *Interp) norm(x IntV) IntV {
 	m := in.wmask(x.T)
 	x.V &= m &^ x.Unk
 	x.Unk &= m
+	x.Ex &= x.Unk
 	if x.Unk == 0 {
 		x.Dep = nil
 	}
@@ -577,6 +578,8 @@ func (in *Interp) external(fn *ssa.Function, args []Value) Value {
 				}
 			}
 			o.Parts = parts
+			o.Format = string(s)
+			o.Exact = len(args) <= 1 || func() bool { _, isSl := args[1].(SliceV); return isSl }()
 			// constant prefix: literal text up to the first verb, then string
 			// arguments that are constants for leading %s verbs
 			format := string(s)
@@ -601,7 +604,16 @@ func (in *Interp) external(fn *ssa.Function, args []Value) Value {
 		}
 		return o
 	case "strings.Join":
-		return OpaqueV{Dep: dep, What: "strings.Join"}
+		o := OpaqueV{Dep: dep, What: "strings.Join"}
+		if sl, ok := args[0].(SliceV); ok {
+			if sep, ok := args[1].(StrV); ok {
+				o.Format, o.Exact = string(sep), true
+				for i := 0; i < sl.Len(); i++ {
+					o.Parts = append(o.Parts, UnwrapV(sl.At(i)))
+				}
+			}
+		}
+		return o
 	}
 	return OpaqueV{Dep: dep, What: fn.String()}
 }
@@ -740,6 +752,7 @@ func (in *Interp) unop(fr *frame, x *ssa.UnOp) Value {
 	case token.XOR:
 		if i, ok := v.(IntV); ok {
 			i.V = ^i.V
+			i.Ex = 0
 			return in.norm(i)
 		}
 	case token.SUB:
@@ -760,7 +773,7 @@ func (in *Interp) convert(v Value, t types.Type) Value {
 	}
 	if x, ok := v.(IntV); ok && b.Info()&types.IsInteger != 0 {
 		n := in.width(x.T)
-		r := IntV{V: x.V, Unk: x.Unk, T: b}
+		r := IntV{V: x.V, Unk: x.Unk, T: b, Ex: x.Ex}
 		if x.Dep != nil {
 			d := *x.Dep
 			r.Dep = &d
@@ -774,6 +787,7 @@ func (in *Interp) convert(v Value, t types.Type) Value {
 				for p := n; p < 64; p++ {
 					r.Unk |= 1 << p
 					r.Dep[p] = x.Dep[sb]
+					r.Ex |= (x.Ex >> sb & 1) << p
 				}
 			} else if x.V>>sb&1 == 1 {
 				r.V |= ^uint64(0) << n
@@ -809,6 +823,7 @@ func (in *Interp) Symbolic(t *types.Basic, bits int) IntV {
 		r.Unk |= 1 << uint(p)
 		r.Dep[p] = 1 << uint(p)
 	}
+	r.Ex = r.Unk
 	return in.norm(r)
 }
 
@@ -854,25 +869,26 @@ func (in *Interp) binop(op token.Token, a, b Value) Value {
 				} else {
 					src = int(p + sh)
 				}
-				var kv, ku uint64
+				var kv, ku, ke uint64
 				var dp Dep
 				switch {
 				case src < 0:
 				case src >= int(n):
 					if op == token.SHR && !isUns(x.T) { // arithmetic
-						kv, ku = x.V>>(n-1)&1, x.Unk>>(n-1)&1
+						kv, ku, ke = x.V>>(n-1)&1, x.Unk>>(n-1)&1, x.Ex>>(n-1)&1
 						if ku == 1 {
 							dp = x.Dep[n-1]
 						}
 					}
 				default:
-					kv, ku = x.V>>uint(src)&1, x.Unk>>uint(src)&1
+					kv, ku, ke = x.V>>uint(src)&1, x.Unk>>uint(src)&1, x.Ex>>uint(src)&1
 					if ku == 1 {
 						dp = x.Dep[src]
 					}
 				}
 				r.V |= kv << p
 				r.Unk |= ku << p
+				r.Ex |= ke << p
 				if ku == 1 {
 					r.Dep[p] = dp
 				}
@@ -896,6 +912,14 @@ func (in *Interp) binop(op token.Token, a, b Value) Value {
 				k0, k1 = xk0&yk0|xk1&yk1, xk0&yk1|xk1&yk0
 			}
 			r := IntV{T: x.T, V: k1, Unk: ^(k0 | k1)}
+			// a bit stays an exact copy when the other operand's bit is the
+			// known neutral element of the operation
+			switch op {
+			case token.AND:
+				r.Ex = x.Ex&yk1 | y.Ex&xk1
+			case token.OR, token.XOR:
+				r.Ex = x.Ex&yk0 | y.Ex&xk0
+			}
 			r = in.norm(r)
 			if r.Unk != 0 {
 				r.Dep = &[64]Dep{}
